@@ -354,7 +354,8 @@ public:
         // implicit BX declaration
         if (orthogonalizeInPlace(X, m_B, BX) != Eigen::Success)
         {
-            max_iter = 0;
+            // X'BX could not be factorized (info() tells), and BX has not been formed
+            return;
         }
 
         AX = A * X;
